@@ -1406,6 +1406,11 @@ static int _parse_single_range(const char *str, struct _range *range)
         if (*p == '-')     /* do NOT allow negative numbers */
             goto error;
     }
+
+    /* both bounds must be plain digit strings (no blanks, signs, trailing text) */
+    if (str[strspn(str, "0123456789")] != '\0'
+        || (p && (*p == '\0' || p[strspn(p, "0123456789")] != '\0')))
+        goto error;
     range->lo = strtoul(str, &q, 10);
     if (q == str)
         goto error;
